@@ -514,7 +514,11 @@ type c11Scene struct {
 func c11I64(v int64) *int64 { return &v }
 func c11I32(v int32) *int32 { return &v }
 
-func c11GenScene(t *rapid.T) *c11Scene {
+func c11GenScene(t *rapid.T) *c11Scene { return c11GenSceneOpt(t, false) }
+
+// large: 13-40 pods, nearly all eligible, two or three distinct priorities and mostly no sub-priority label / eviction
+// priority, so that long runs of candidates tie on every key but usage / request
+func c11GenSceneOpt(t *rapid.T, large bool) *c11Scene {
 	s := &c11Scene{}
 	s.scale = rapid.SampledFrom([]int64{1, 1, 1 << 20}).Draw(t, "scale")
 	thUsed := rapid.SampledFrom([]int32{5999, 5999, 7999, 9999, 3999, 5500, 0, -1, 100000}).Draw(t, "evictEnabledPriorityThreshold")
@@ -527,7 +531,27 @@ func c11GenScene(t *rapid.T) *c11Scene {
 		lowTh = thAlloc
 	}
 	friendlyPrio := []int32{lowTh, lowTh, lowTh - 1, lowTh - 500, thAlloc, thUsed, 5500, 7500}
-	s.pods = rapid.SliceOfN(rapid.Custom(func(t *rapid.T) *c11Pod { return c11GenPod(t, pool, friendlyPrio, friendlyCase, s.scale) }), 1, 8).Draw(t, "pods")
+	if large {
+		friendlyPrio = []int32{lowTh, lowTh - 1, lowTh}
+		if rapid.Bool().Draw(t, "threePriorities") {
+			friendlyPrio = append(friendlyPrio, lowTh-500)
+		}
+		s.pods = rapid.SliceOfN(rapid.Custom(func(t *rapid.T) *c11Pod {
+			p := c11GenPod(t, pool, friendlyPrio, true, s.scale)
+			if rapid.IntRange(0, 5).Draw(t, "noSubPriorityLabel") > 0 {
+				p.PrioLabel = c11Opt{}
+			}
+			if rapid.IntRange(0, 5).Draw(t, "noEvictionPriority") > 0 {
+				p.EvictPrio = c11Opt{}
+			}
+			if rapid.IntRange(0, 7).Draw(t, "hasUsageSample") > 0 && !p.HasMetric {
+				p.HasMetric, p.Metric = true, rapid.Int64Range(0, 16).Draw(t, "usage")
+			}
+			return p
+		}), 13, 40).Draw(t, "manyPods")
+	} else {
+		s.pods = rapid.SliceOfN(rapid.Custom(func(t *rapid.T) *c11Pod { return c11GenPod(t, pool, friendlyPrio, friendlyCase, s.scale) }), 1, 8).Draw(t, "pods")
+	}
 	if rapid.IntRange(0, 24).Draw(t, "emptyNode") == 24 {
 		s.pods = nil
 	}
@@ -659,14 +683,19 @@ func c11Names(l []*qosmanagerUtil.PodEvictInfo) []string {
 
 // ---------------------------------------------------------------- (1) victim lists: eligibility and published order
 
-func TestVerifC11MemLists(t *testing.T) {
-	rec := vk.New(t, "C11", "memLists")
+func TestVerifC11MemLists(t *testing.T) { c11RunLists(t, "memLists", false) }
+
+// the same oracle on candidate lists of 13-40 pods with long runs of ties on the priority keys
+func TestVerifC11MemListsLarge(t *testing.T) { c11RunLists(t, "memListsLarge", true) }
+
+func c11RunLists(t *testing.T, unit string, large bool) {
+	rec := vk.New(t, "C11", unit)
 	saved := metriccache.DefaultAggregateResultFactory
 	defer func() { metriccache.DefaultAggregateResultFactory = saved }()
 	rapid.Check(t, func(t *rapid.T) {
 		c := rec.Begin()
 		defer c.End()
-		s := c11GenScene(t)
+		s := c11GenSceneOpt(t, large)
 		byName := map[string]*c11Pod{}
 		for _, p := range s.pods {
 			byName[p.Name] = p
@@ -710,6 +739,7 @@ func TestVerifC11MemLists(t *testing.T) {
 				sub:      func(p *c11Pod) int64 { _, v := p.memRequest(); return v }},
 		}
 		nListed, nExcluded := 0, 0
+		maxListed, maxTieRun := 0, 0
 		sawAtThreshold, sawAboveBy1, sawMalformedPolicy, sawOtherPolicy, sawEvictPrioOrder, sawUsageOrder, sawBEIgnoresEvictPrio := false, false, false, false, false, false, false
 		for _, lc := range lists {
 			where := fmt.Sprintf("list %s (policy %s) = %v", lc.name, lc.policy, c11Names(lc.got))
@@ -768,6 +798,23 @@ func TestVerifC11MemLists(t *testing.T) {
 				}
 			}
 			nListed += len(order)
+			if len(order) > maxListed {
+				maxListed = len(order)
+			}
+			if lc.sub != nil && len(order) > 12 { // longest run of neighbours equal on eviction priority, priority and sub-priority
+				run := 1
+				for i := 1; i < len(order); i++ {
+					a, b := order[i-1], order[i]
+					if a.evictionPriority() == b.evictionPriority() && a.prio() == b.prio() && a.labelPriority() == b.labelPriority() {
+						run++
+					} else {
+						run = 1
+					}
+					if run > maxTieRun {
+						maxTieRun = run
+					}
+				}
+			}
 			// published order, all pairs (ties: any order)
 			anyNilPrio := false
 			for _, p := range order {
@@ -831,6 +878,8 @@ func TestVerifC11MemLists(t *testing.T) {
 			}
 		}
 		c.ClassIf(len(s.pods) == 0, "no-pods")
+		c.ClassIf(maxListed > 12, "a-list-with-more-than-12-candidates")
+		c.ClassIf(maxTieRun >= 4, "list>12-with-4-or-more-candidates-tied-on-all-priority-keys")
 		c.ClassIf(nListed >= 2, "two-or-more-listed")
 		c.ClassIf(nExcluded > 0, "some-pod-excluded")
 		c.ClassIf(sawAtThreshold, "priority-equals-threshold-listed")
